@@ -48,6 +48,12 @@ CHECKS = {
         "assumptions": A_SIM + ["no obligation is asserted for a token event that follows a null token"],
         "parts": [sim(300, 5000)],
     },
+    "C09": {
+        "level": "exploration",
+        "rule": "rapid stateful generation of subscribe/unsubscribe/get/call/disconnect from 1-4 WebSocket connections plus HTTP requests, get errors, delete events, query normalisation, a resource name whose event subject exceeds the control line, requests still in flight when the last subscriber leaves, re-subscription within a 20 ms eviction delay (hook) with sleep ops; oracle: trace invariants on the boundary log (every get under a live event subscription established earlier; data handed to clients only under a subscription uninterrupted since the get answer; no Unsubscribe while a client holds the resource or a request is pending), hook invariant use count = subscribers + pending requests at every quiescent step, and the end state after closing everything (no event/conn subscriptions, both cache gauges zero, a fresh subscribe fetches anew). Non-trivial = an event subscription was released and established again, or a request outlived the subscription; distinct by script hash",
+        "assumptions": A_SIM,
+        "parts": [sim(300, 5000)],
+    },
     "C07": {
         "level": "exploration",
         "rule": "rapid stateful generation of request mixes (1-2 connections, subscribe/get/unsubscribe/call/auth/new/ill-formed methods, every outcome and order of the dependent access/get/call answers, events, deletes, revocations), end-of-history epilogue answering everything; oracle: reference client counts responses per id (never two, never unknown, error objects with string code/message) and at quiescence every id on an open connection has exactly one. Non-trivial = >=2 requests for one rid overlapped, or an unsubscribe/unsubscribe event/delete hit a rid with a pending request; distinct by hash of the executed script",
@@ -65,6 +71,8 @@ CHECKS = {
 SIM_NOTE = "trusted: the harness (mock mq, reference client/service, quiescence detector) and rapid; exploration never proves absence; goroutine interleavings inside the gateway are sampled only"
 
 META = {
+    "C09": {"engine": "sim", "design_ref": "6 C09", "technique": "stateful property-based testing (rapid); trace invariants on the messaging boundary plus end-state and use-count checks",
+            "text": "generated subscribe/unsubscribe/disconnect/delete/error histories incl. names beyond the control-line limit and a 20 ms eviction delay; invariants: get only under an earlier live subscription, data only under an uninterrupted one, no release while used, everything released at the end, use count = subscribers + pending requests at every quiescent point.", "note": SIM_NOTE + "; the production delay of 5 s is replaced by 0 or 20 ms (hook)"},
     "C04": {"engine": "sim", "design_ref": "6 C04", "technique": "stateful property-based testing (rapid); trace invariant linking data frames to valid access grants",
             "text": "every data-bearing response of generated histories is matched against the access answers and triggers recorded at the messaging boundary.", "note": SIM_NOTE},
     "C05": {"engine": "sim", "design_ref": "6 C05", "technique": "stateful property-based testing (rapid); trace invariant linking call requests to valid grants and current tokens",
